@@ -299,7 +299,10 @@ def gen_code(rng, cat, n=1, forms=('src', 'src', 'ast', 'fst'), uniq=None):
         return {'form': 'value', 'cat': 'constant', 'value': v, 'text': repr(v)}
     pool = POOLS[cat]
     if cat == 'identifier':
-        return {'form': 'src', 'cat': cat, 'text': rng.choice(pool)}
+        t = rng.choice(pool)
+        if uniq is not None and t != '_':
+            t = uniq(t, cat)
+        return {'form': 'src', 'cat': cat, 'text': t}
     parts = [rng.choice(pool) for _ in range(n)]
     if uniq is not None:
         parts = [uniq(p, cat) for p in parts]
